@@ -21,10 +21,10 @@ FALLBACK_IDS = {126720: "0x1ef00ManufacturerProprietaryFastPacketAddressed",
 def payload_of(s, m, length):
     """bytes unique per (stream, message) at every position; first two bytes pick
     a manufacturer code no specific definition matches."""
-    b = [(17 * s + 29 * m + 7 * p + 3) % 251 + 1 for p in range(length)]
+    b = [(17 * s + 29 * m + 7 * p + 3) % 251 + 1 for p in range(max(length, 2))]
     b[0] = 1 + s
     b[1] = 0x00 | (m << 5) & 0xE0   # industry code bits carry the message index too
-    return bytes(b)
+    return bytes(b[:length])
 
 
 class Stream:
@@ -265,6 +265,9 @@ def configs(ctx):
     cshort = [(0, 16), (1, 5), (0, 16), (2, 6)]          # messages that fit into one frame between multi-frame ones
     out.append(make_config("one-single-frame-msgs-short", [(A, 1, 255, cshort)], None))
     out.append(make_config("one-single-frame-msgs-padFF", [(A, 1, 255, cshort)], 0xFF))
+    ctiny = [(0, 16), (1, 0), (2, 9), (3, 1)]            # announced lengths 0 and 1: everything after the length byte is padding
+    out.append(make_config("one-tiny-msgs-padFF", [(A, 1, 255, ctiny)], 0xFF))
+    out.append(make_config("one-tiny-msgs-pad00-usb", [(A, 1, 255, ctiny)], 0x00, "usb"))
     out.append(make_config("two-src-short", [(A, 1, 255, c012), (A, 2, 255, c012)], None))
     out.append(make_config("two-pgn-padFF", [(A, 1, 255, c012), (B, 1, 255, c012)], 0xFF))
     out.append(make_config("two-dst-short", [(A, 1, 1, c0102), (A, 1, 2, c012)], None))
